@@ -237,3 +237,14 @@ WITNESSES += [
     dict(id="c18-ok-or-default", prop="C18", file="expr_container.py", expect=None,
          old="        self._sym_tensors: set = (set() if sym_tensors is None\n                                  else set(sym_tensors))", new="        self._sym_tensors: set = set(sym_tensors or ())"),
 ]
+
+WITNESSES += [
+    # the printer parameter renamed (the method is called positionally by sympy), a default through dataclasses.field
+    dict(id="c18-ok-printer-param-field-default", prop="C18", file=I, expect=None, edits=[
+        ("    def _latex(self, printer) -> str:\n        ret = self.name", "    def _latex(self, prt) -> str:\n        ret = self.name"),
+    ]),
+    dict(id="c18-ok-field-default", prop="C18", file=T, expect=None, edits=[
+        ("from dataclasses import dataclass, fields\n", "from dataclasses import dataclass, fields, field\n"),
+        ('    coulomb: str = "v"\n', '    coulomb: str = field(default="v")\n'),
+    ]),
+]
